@@ -617,7 +617,7 @@ pub fn run(cfg: &Cfg) -> Outcome {
     let mut local = run_parallel(
         cfg,
         35,
-        RunLimits { cases: n, wall: Duration::from_secs(if cfg.thorough() { 840 } else { 100 }) },
+        RunLimits { cases: n, wall: Duration::from_secs(if cfg.thorough() { 780 } else { 100 }) },
         |l, rng, idx| one_case(cfg, l, rng, idx, deflate_ok),
     );
     local.count("deflated_base_supported_by_tool_build", deflate_ok as u64);
